@@ -1,0 +1,18 @@
+//go:build verif
+
+// Read-only accessors for the /verif harness. Add-only: nothing here is compiled
+// without the `verif` build tag.
+
+package fw
+
+import "github.com/named-data/ndnd/fw/table"
+
+// VerifPitCS returns the PIT-CS table of the forwarding thread.
+func (t *Thread) VerifPitCS() table.PitCsTable {
+	return t.pitCS
+}
+
+// VerifDeadNonceLen returns the sizes of the thread's dead nonce set and expiry queue.
+func (t *Thread) VerifDeadNonceLen() (list int, queue int) {
+	return t.deadNonceList.VerifLen()
+}
